@@ -22,6 +22,8 @@ VERIF = os.path.dirname(os.path.dirname(os.path.abspath(__file__)))
 REPO = os.environ.get('REPO_DIR', '/repo')
 NPROC = int(os.environ.get('VERIF_JOBS', str(min(16, os.cpu_count() or 4))))
 _MP = multiprocessing.get_context('fork')
+# runs against scratch trees (seeded changes) must not overwrite the committed evidence / replays
+OUT = '/tmp/verif_out_%d' % os.getpid() if os.environ.get('VERIF_NO_EVIDENCE') else VERIF
 
 
 class Viol(Exception):
@@ -401,7 +403,7 @@ class Run:
             seen_sig.add(sig)
             if len(paths) >= 25:
                 break
-            d = os.path.join(VERIF, 'replays', self.prop)
+            d = os.path.join(OUT, 'replays', self.prop)
             os.makedirs(d, exist_ok=True)
             h = hashlib.sha256(json.dumps(v, sort_keys=True).encode()).hexdigest()[:12]
             p = os.path.join(d, '%s-%s.json' % (v['family'].replace('/', '_'), h))
@@ -465,7 +467,7 @@ class Run:
             cov.update(extra)
         doc = {'property_id': self.prop, 'tier': self.tier, 'seed': self.seed, 'level': self.level, 'coverage': cov,
                'assumptions': self.assumptions, 'wall_s': round(time.time() - self.t0, 2), 'violations': nunknown}
-        d = os.path.join(VERIF, 'evidence')
+        d = os.path.join(OUT, 'evidence')
         os.makedirs(d, exist_ok=True)
         tmp = os.path.join(d, '.%s.json.tmp' % self.prop)
         with open(tmp, 'w') as f:
@@ -511,3 +513,11 @@ def all_bytestrings(maxlen, alphabet=None):
 def chunked(seq, n):
     seq = list(seq)
     return [seq[i:i + n] for i in range(0, len(seq), n)]
+
+
+def deviation_sets(points, k, kmin=0):
+    """Like deviations() but yields only the deviated points: {name: alternative}."""
+    for j in range(kmin, k + 1):
+        for idxs in itertools.combinations(range(len(points)), j):
+            for alts in itertools.product(*[points[i][2] for i in idxs]):
+                yield {points[i][0]: a for i, a in zip(idxs, alts)}
